@@ -1,11 +1,15 @@
 package p_kv
 
 import (
+	"context"
+	"fmt"
 	"sync"
 	"testing"
 	"testing/synctest"
 	"time"
 
+	gerrors "github.com/acquirecloud/golibs/errors"
+	"github.com/acquirecloud/golibs/kvs"
 	"github.com/acquirecloud/golibs/kvs/inmem"
 	kvredis "github.com/acquirecloud/golibs/kvs/redis"
 	"github.com/alicebob/miniredis/v2"
@@ -172,4 +176,100 @@ func replayC07(t *testing.T, env *vstat.Envelope, p string) {
 	info, v := RunC07Inmem(t, c)
 	st.Report(t, "TestReplay", c, v)
 	recordC07(c, info, "inmem-bubble")
+}
+
+// ---------------------------------------------------------------------------------------------
+// deadlines: a waiter whose context carries a deadline, on a key that does not change. It may return the context's error
+// only once the context is done (exact: ctx.Err() is read the moment the call returns), and it must return soon after.
+
+// DeadlineCase is one case.
+type DeadlineCase struct {
+	Backend string `json:"backend"`          // inmem | redis
+	Ms      int    `json:"ms"`               // deadline, from the start of the call
+	Change  int    `json:"change,omitempty"` // >0: the key gets a new version this many ms after the start (before the deadline): the waiter must return nil
+}
+
+func runDeadline(t vstat.TB, c DeadlineCase) *vstat.Violation {
+	var st kvs.Storage
+	key := fmt.Sprintf("dl-%d-%d", c.Ms, c.Change)
+	if c.Backend == "redis" {
+		_, s, err := Redis()
+		if err != nil {
+			t.Fatalf("INFRA: cannot start miniredis: %v", err)
+		}
+		st = s
+	} else {
+		st = inmem.New()
+	}
+	bg := context.Background()
+	r0, err := st.Put(bg, kvs.Record{Key: key, Value: []byte("0")})
+	if err != nil {
+		return vstat.V(c.Backend+":setup", "Put: %v", err)
+	}
+	ctx, cancel := context.WithTimeout(bg, time.Duration(c.Ms)*time.Millisecond)
+	defer cancel()
+	t0 := time.Now()
+	if c.Change > 0 {
+		go func() {
+			time.Sleep(time.Duration(c.Change) * time.Millisecond)
+			st.Put(bg, kvs.Record{Key: key, Value: []byte("1")})
+		}()
+	}
+	werr := st.WaitForVersionChange(ctx, key, r0.Version)
+	ctxErr := ctx.Err()
+	took := time.Since(t0)
+	isCtx := werr != nil && (gerrors.Is(werr, context.DeadlineExceeded) || gerrors.Is(werr, context.Canceled))
+	if isCtx && ctxErr == nil {
+		return vstat.V(c.Backend+":wait-ctx-error-with-live-context", "WaitForVersionChange under a %d ms deadline returned %v after %v while its context was still live (ctx.Err()==nil) - the context's error may only be returned once the context is done", c.Ms, werr, took)
+	}
+	switch {
+	case c.Change > 0 && c.Change+60 < c.Ms:
+		if werr != nil && took < time.Duration(c.Ms)*time.Millisecond {
+			return vstat.V(c.Backend+":wait-result", "the key got a new version %d ms after the start, well before the %d ms deadline; the waiter returned %v after %v", c.Change, c.Ms, werr, took)
+		}
+	case c.Change == 0:
+		if werr == nil || isClass(werr, gerrors.ErrNotExist) {
+			return vstat.V(c.Backend+":wait-spurious", "the key was not touched; the waiter under a %d ms deadline returned %v", c.Ms, werr)
+		}
+	}
+	st.Delete(bg, key)
+	return nil
+}
+
+func TestC07Deadline(t *testing.T) {
+	st := vstat.For("C07")
+	var cases []DeadlineCase
+	for _, be := range []string{"inmem", "redis"} {
+		for _, ms := range []int{20, 45, 70, 100, 130, 190, 260} {
+			cases = append(cases, DeadlineCase{Backend: be, Ms: ms})
+		}
+		cases = append(cases, DeadlineCase{Backend: be, Ms: 300, Change: 40}, DeadlineCase{Backend: be, Ms: 300, Change: 150})
+	}
+	run := func(tb vstat.TB, batch []DeadlineCase) {
+		viols := make([]*vstat.Violation, len(batch))
+		var wg sync.WaitGroup
+		for i := range batch {
+			wg.Add(1)
+			go func(i int) { defer wg.Done(); viols[i] = runDeadline(tb, batch[i]) }(i)
+		}
+		wg.Wait()
+		for i, c := range batch {
+			st.Report(tb, "TestC07Deadline", c, viols[i])
+			st.Case(true, vstat.Hash(c), func() any { return c }, "deadline_waiter:"+c.Backend)
+		}
+	}
+	run(t, cases)
+	rapid.Check(t, func(rt *rapid.T) {
+		n := rapid.IntRange(4, 12).Draw(rt, "batch")
+		var batch []DeadlineCase
+		for i := 0; i < n; i++ {
+			c := DeadlineCase{Backend: rapid.SampledFrom([]string{"inmem", "redis", "redis"}).Draw(rt, "backend"), Ms: rapid.IntRange(10, 400).Draw(rt, "ms")}
+			if rapid.IntRange(0, 3).Draw(rt, "change") == 0 {
+				c.Change = rapid.IntRange(1, c.Ms).Draw(rt, "changeAt")
+			}
+			c.Ms += i // distinct keys inside a batch
+			batch = append(batch, c)
+		}
+		run(rt, batch)
+	})
 }
